@@ -19,6 +19,7 @@ import (
 	"net/http/httptest"
 	"net/url"
 	"sort"
+	"strconv"
 	"strings"
 
 	"github.com/ccbrown/api-fu/jsonapi"
@@ -54,11 +55,24 @@ func (h hout) sexp() sexp.Node {
 	case hNil:
 		return sexp.Sym("nil")
 	}
-	return sexp.T("err", sexp.Str(h.Status))
+	return errSexp(h.Status)
 }
 
+// an application error; a status written with a trailing "!" stands for that status on an error object
+// whose Meta does not marshal
 func mkErr(status string) *types.Error {
-	return &types.Error{Status: status, Title: "application error"}
+	if strings.HasSuffix(status, "!") {
+		return &types.Error{Status: strings.TrimSuffix(status, "!"), Title: "application error",
+			Links: types.Links{"about": "https://example.com/e"}, Meta: map[string]any{"live": make(chan int)}}
+	}
+	return &types.Error{Status: status, Title: "application error", Meta: map[string]any{"n": 1}}
+}
+
+func errSexp(status string) sexp.Node {
+	if strings.HasSuffix(status, "!") {
+		return sexp.T("err", sexp.Str(strings.TrimSuffix(status, "!")), sexp.Sym("unser"))
+	}
+	return sexp.T("err", sexp.Str(status))
 }
 
 func (h hout) value() (*res, *types.Error) {
@@ -89,7 +103,7 @@ func (a aout) sexp() sexp.Node {
 	case aUnser:
 		return sexp.Sym("unser")
 	}
-	return sexp.T("err", sexp.Str(a.Status))
+	return errSexp(a.Status)
 }
 
 type attrSpec struct {
@@ -116,7 +130,7 @@ func (o oneOut) sexp() sexp.Node {
 	case oId:
 		return sexp.T("id", sexp.Str(o.Id.Type), sexp.Str(o.Id.Id))
 	}
-	return sexp.T("err", sexp.Str(o.Status))
+	return errSexp(o.Status)
 }
 
 const (
@@ -144,7 +158,7 @@ func (m manyOut) sexp() sexp.Node {
 	case mIds:
 		return sexp.T("ids", ridList(m.Ids)...)
 	case mErr:
-		return sexp.T("err", sexp.Str(m.Status))
+		return errSexp(m.Status)
 	}
 	return sexp.Sym("echo")
 }
@@ -205,7 +219,7 @@ func linkPreset(name string) types.Links {
 
 func (o customOut) sexp() sexp.Node {
 	if o.Err {
-		return sexp.T("err", sexp.Str(o.Status))
+		return errSexp(o.Status)
 	}
 	var lk []sexp.Node
 	preset := linkPreset(o.Links)
@@ -243,8 +257,61 @@ func (o customOut) sexp() sexp.Node {
 // the resolver itself; pool holds the shared Links maps of the schema it belongs to
 type customResolver struct {
 	spec *customSpec
-	pool map[string]types.Links
+	pool *mapPool
 	rec  *recorder
+}
+
+// the maps the resolvers of one schema own, with the content they were made with
+type mapPool struct {
+	links     map[string]types.Links
+	linksSnap map[string]types.Links
+	metas     map[int]map[string]any
+}
+
+func newMapPool() *mapPool {
+	return &mapPool{links: map[string]types.Links{}, linksSnap: map[string]types.Links{}, metas: map[int]map[string]any{}}
+}
+
+func metaPreset(kind int) map[string]any {
+	switch kind {
+	case 1:
+		return map[string]any{}
+	case 2:
+		return map[string]any{"count": 1}
+	case 3:
+		return map[string]any{"count": 1, "live": make(chan int)}
+	}
+	return nil
+}
+
+// every resolver-owned map still has the content it was made with
+func (p *mapPool) unchanged() bool {
+	for name, m := range p.links {
+		snap := p.linksSnap[name]
+		if len(m) != len(snap) {
+			return false
+		}
+		for k, v := range snap {
+			if got, ok := m[k]; !ok || got != v {
+				return false
+			}
+		}
+	}
+	for kind, m := range p.metas {
+		want := metaPreset(kind)
+		if len(m) != len(want) {
+			return false
+		}
+		for k := range want {
+			if _, ok := m[k]; !ok {
+				return false
+			}
+		}
+		if c, ok := m["count"]; ok && c != 1 {
+			return false
+		}
+	}
+	return true
 }
 
 func (c customResolver) relationship(o customOut, includeData bool, members []types.ResourceId) (types.Relationship, *types.Error) {
@@ -253,10 +320,11 @@ func (c customResolver) relationship(o customOut, includeData bool, members []ty
 	}
 	var rel types.Relationship
 	if o.Shared {
-		if _, ok := c.pool[o.Links]; !ok {
-			c.pool[o.Links] = linkPreset(o.Links)
+		if _, ok := c.pool.links[o.Links]; !ok {
+			c.pool.links[o.Links] = linkPreset(o.Links)
+			c.pool.linksSnap[o.Links] = linkPreset(o.Links)
 		}
-		rel.Links = c.pool[o.Links]
+		rel.Links = c.pool.links[o.Links]
 	} else {
 		rel.Links = linkPreset(o.Links)
 	}
@@ -276,13 +344,13 @@ func (c customResolver) relationship(o customOut, includeData bool, members []ty
 			rel.Data = &data
 		}
 	}
-	switch o.Meta {
-	case 1:
-		rel.Meta = map[string]any{}
-	case 2:
-		rel.Meta = map[string]any{"count": 1}
-	case 3:
-		rel.Meta = map[string]any{"count": 1, "live": make(chan int)}
+	if o.Shared && o.Meta != 0 {
+		if _, ok := c.pool.metas[o.Meta]; !ok {
+			c.pool.metas[o.Meta] = metaPreset(o.Meta)
+		}
+		rel.Meta = c.pool.metas[o.Meta]
+	} else {
+		rel.Meta = metaPreset(o.Meta)
 	}
 	return rel, nil
 }
@@ -404,7 +472,7 @@ func (t typeSpec) sexp() sexp.Node {
 		var es []sexp.Node
 		d := func(h hout) sexp.Node {
 			if h.Kind == hErr {
-				return sexp.T("err", sexp.Str(h.Status))
+				return errSexp(h.Status)
 			}
 			return sexp.Sym("ok")
 		}
@@ -492,9 +560,9 @@ func manyResult(o manyOut, members []types.ResourceId, emptyAsNil bool) ([]types
 	return append([]types.ResourceId(nil), o.Ids...), nil
 }
 
-func build(specs []typeSpec, rec *recorder) *jsonapi.Schema {
+func build(specs []typeSpec, rec *recorder) (*jsonapi.Schema, *mapPool) {
 	def := &jsonapi.SchemaDefinition{ResourceTypes: map[string]jsonapi.AnyResourceType{}}
-	pool := map[string]types.Links{} // the shared Links maps of the custom resolvers of this schema
+	pool := newMapPool() // the shared Links / Meta maps of the custom resolvers of this schema
 	for _, ts := range specs {
 		ts := ts
 		rt := jsonapi.ResourceType[*res]{}
@@ -579,7 +647,7 @@ func build(specs []typeSpec, rec *recorder) *jsonapi.Schema {
 	if err != nil {
 		panic("harness: generated schema rejected: " + err.Error())
 	}
-	return s
+	return s, pool
 }
 
 // ------------------------------------------------------------------------------------------------
@@ -718,11 +786,51 @@ func (bd body) sexp() sexp.Node {
 // ------------------------------------------------------------------------------------------------
 
 type request struct {
-	Method string
-	Path   string
-	Accept []string
-	Query  string // raw query
-	Body   body
+	Method      string
+	Path        string // r.URL.Path, unless Target is given
+	Target      string // a raw request-target ("/things/a%2Fb?x=1"), parsed like net/http's server does
+	Accept      []string
+	Query       string // raw query
+	Body        body
+	ContentType string // the handler does not look at it
+}
+
+// the number tokens of a body text (maximal runs of number characters outside strings) and whether
+// strconv.ParseFloat finds them inside float64: the table the model's reader asks
+func numTable(text string) []sexp.Node {
+	var out []sexp.Node
+	seen := map[string]bool{}
+	isNum := func(c byte) bool {
+		return (c >= '0' && c <= '9') || c == '-' || c == '+' || c == '.' || c == 'e' || c == 'E'
+	}
+	for i := 0; i < len(text); {
+		switch {
+		case text[i] == '"':
+			i++
+			for i < len(text) && text[i] != '"' {
+				if text[i] == '\\' {
+					i++
+				}
+				i++
+			}
+			i++
+		case isNum(text[i]):
+			j := i
+			for j < len(text) && isNum(text[j]) {
+				j++
+			}
+			tok := text[i:j]
+			if !seen[tok] {
+				seen[tok] = true
+				_, err := strconv.ParseFloat(tok, 64)
+				out = append(out, sexp.L(sexp.Str(tok), sexp.Bool(err == nil)))
+			}
+			i = j
+		default:
+			i++
+		}
+	}
+	return out
 }
 
 const mediaType = "application/vnd.api+json"
@@ -766,7 +874,7 @@ func pmtTable(lines []string) sexp.Node {
 	return sexp.L(out...)
 }
 
-func (rq request) sexp(u *url.URL) sexp.Node {
+func (rq request) sexp(u *url.URL, text string) sexp.Node {
 	var acc, q []sexp.Node
 	for _, a := range rq.Accept {
 		acc = append(acc, sexp.Str(a))
@@ -780,7 +888,7 @@ func (rq request) sexp(u *url.URL) sexp.Node {
 		q = append(q, sexp.Str(k))
 	}
 	return sexp.T("req", sexp.T("method", sexp.Str(rq.Method)), sexp.T("path", sexp.Str(u.Path)),
-		sexp.T("accept", acc...), sexp.T("query", q...), sexp.T("body", rq.Body.sexp()))
+		sexp.T("accept", acc...), sexp.T("query", q...), sexp.T("nums", numTable(text)...), sexp.T("body", sexp.T("raw", sexp.Str(text))))
 }
 
 // ------------------------------------------------------------------------------------------------
@@ -990,14 +1098,24 @@ func observeBody(b []byte) (node sexp.Node) {
 // ------------------------------------------------------------------------------------------------
 
 // one request against the API value; the recorder is emptied first
-func serve(r *rng.R, api jsonapi.API, rec *recorder, rq request) (reqNode, pmtNode, obs sexp.Node) {
+func serve(r *rng.R, api jsonapi.API, pool *mapPool, rec *recorder, rq request) (reqNode, pmtNode, obs sexp.Node) {
 	rec.calls = nil
 	text := rq.Body.text(r)
 	hr := httptest.NewRequest("GET", "/", strings.NewReader(text))
 	hr.Method = rq.Method
 	hr.URL = &url.URL{Path: rq.Path, RawQuery: rq.Query}
+	if rq.Target != "" {
+		u, err := url.ParseRequestURI(rq.Target) // what net/http's server does with the request line
+		if err != nil {
+			panic("harness: request-target does not parse: " + rq.Target)
+		}
+		hr.URL = u
+	}
 	for _, a := range rq.Accept {
 		hr.Header.Add("Accept", a)
+	}
+	if rq.ContentType != "" {
+		hr.Header.Set("Content-Type", rq.ContentType)
 	}
 	w := httptest.NewRecorder()
 	panicked := func() (p bool) {
@@ -1013,9 +1131,16 @@ func serve(r *rng.R, api jsonapi.API, rec *recorder, rq request) (reqNode, pmtNo
 		obs = sexp.T("obs", sexp.Sym("panic"))
 	} else {
 		obs = sexp.T("obs", sexp.T("status", sexp.Int(w.Code)), sexp.T("ctype", sexp.Str(w.Header().Get("Content-Type"))),
-			sexp.T("body", observeBody(w.Body.Bytes())), sexp.T("calls", rec.calls...))
+			sexp.T("body", observeBody(w.Body.Bytes())), sexp.T("calls", rec.calls...), sexp.T("maps", mapsNode(pool)))
 	}
-	return rq.sexp(hr.URL), pmtTable(rq.Accept), obs
+	return rq.sexp(hr.URL, text), pmtTable(rq.Accept), obs
+}
+
+func mapsNode(pool *mapPool) sexp.Node {
+	if pool.unchanged() {
+		return sexp.Sym("unchanged")
+	}
+	return sexp.Sym("written")
 }
 
 func schemaSexp(specs []typeSpec) sexp.Node {
@@ -1028,8 +1153,9 @@ func schemaSexp(specs []typeSpec) sexp.Node {
 
 func runCase(r *rng.R, specs []typeSpec, rq request) sexp.Node {
 	rec := &recorder{}
-	api := jsonapi.API{Schema: build(specs, rec)}
-	reqNode, pmtNode, obs := serve(r, api, rec, rq)
+	schema, pool := build(specs, rec)
+	api := jsonapi.API{Schema: schema}
+	reqNode, pmtNode, obs := serve(r, api, pool, rec, rq)
 	return sexp.T("case", schemaSexp(specs), sexp.T("pmt", pmtNode.List...), sexp.T("request", reqNode), sexp.T("observed", obs))
 }
 
@@ -1037,10 +1163,11 @@ func runCase(r *rng.R, specs []typeSpec, rq request) sexp.Node {
 // resolvers with their shared Links maps)
 func runHistory(r *rng.R, specs []typeSpec, rqs []request) sexp.Node {
 	rec := &recorder{}
-	api := jsonapi.API{Schema: build(specs, rec)}
+	schema, pool := build(specs, rec)
+	api := jsonapi.API{Schema: schema}
 	var steps []sexp.Node
 	for _, rq := range rqs {
-		reqNode, pmtNode, obs := serve(r, api, rec, rq)
+		reqNode, pmtNode, obs := serve(r, api, pool, rec, rq)
 		steps = append(steps, sexp.T("step", sexp.T("pmt", pmtNode.List...), sexp.T("request", reqNode), sexp.T("observed", obs)))
 	}
 	return sexp.T("case", schemaSexp(specs), sexp.T("steps", steps...))
@@ -1109,6 +1236,7 @@ func idTable() *table {
 		entry{"e+451", hout{Kind: hErr, Status: "+451"}},
 		entry{"e100", hout{Kind: hErr, Status: "100"}},
 		entry{"e999", hout{Kind: hErr, Status: "999"}},
+		entry{"emeta", hout{Kind: hErr, Status: "403!"}},
 	)
 	return t
 }
@@ -1187,6 +1315,126 @@ func customSchema(preset string, shared bool) []typeSpec {
 	return []typeSpec{things, others}
 }
 
+var contentTypes = []string{"", mediaType, mediaType + "; charset=utf-8", mediaType + `; profile="p"`, mediaType + `; ext="e"`,
+	"application/json", "text/plain", "APPLICATION/VND.API+JSON", "application/x-www-form-urlencoded", "garbage;;"}
+
+// request documents written by hand, byte for byte
+var rawDocuments = []string{
+	// repeated members: strings (last wins, null stores ""), case-insensitive names
+	`{"data":{"type":"x","type":"things","id":"1"}}`, `{"data":{"type":"things","type":"x","id":"1"}}`,
+	`{"data":{"type":"things","type":null,"id":"1"}}`, `{"data":{"type":null,"type":"things","id":"1"}}`,
+	`{"data":{"type":"things","id":"2","ID":"1"}}`, `{"data":{"type":"things","id":"1","Id":null}}`, `{"data":{"TYPE":"x","type":"things","iD":"1"}}`,
+	// repeated "data": merged field by field, null is a no-op
+	`{"data":{"type":"x","id":"1"},"data":{"type":"things"}}`, `{"data":{"type":"things","id":"1"},"data":null}`, `{"data":null,"data":{"type":"things","id":"1"}}`,
+	`{"data":{"type":"things","id":"1"},"DATA":{"id":"2"}}`, `{"data":{"type":"things","id":"1"},"data":5}`, `{"data":5,"data":{"type":"things","id":"1"}}`,
+	`{"data":{"type":"things","id":"1","attributes":{"a":1}},"data":{"attributes":{"b":2}}}`,
+	// repeated maps: merged, null resets
+	`{"data":{"type":"things","id":"1","attributes":{"a":1,"a":2,"b":3},"attributes":{"c":1}}}`, `{"data":{"type":"things","id":"1","attributes":{"a":1},"attributes":null}}`,
+	`{"data":{"type":"things","id":"1","attributes":null,"attributes":{"a":1}}}`, `{"data":{"type":"things","id":"1","attributes":{"a":1,"A":2}}}`,
+	`{"data":{"type":"things","id":"1","attributes":{"a":1},"ATTRIBUTES":{"b":[1,{"c":null}]}}}`,
+	`{"data":{"type":"things","id":"1","relationships":{"r":{"data":{"type":"a","id":"b"}},"r":{}}}}`, `{"data":{"type":"things","id":"1","relationships":{"r":{},"r":{"data":{"type":"a","id":"b"}}}}}`,
+	`{"data":{"type":"things","id":"1","relationships":{"r":{"data":null,"data":{"type":"a","id":"b"}},"q":{"data":[]}},"relationships":{"q":{"data":[{"type":"c","id":"d"}]}}}}`,
+	`{"data":{"type":"things","id":"1","relationships":{"r":{"data":{"type":"a","id":"b"}}},"relationships":null}}`,
+	`{"data":{"type":"things","id":"1","relationships":{"r":{"data":{"type":"a","id":"b"},"DATA":null}}}}`, `{"data":{"type":"things","id":"1","relationships":{"r":{"data":{"type":"a","id":"b","type":null}}}}}`,
+	`{"data":{"type":"things","id":"1","relationships":{"r":{"data":[{"type":"a","id":"b"},{"type":"c","id":"d"}],"data":[{"type":"e"}]}}}}`,
+	`{"data":{"type":"things","id":"1","relationships":{"r":{"data":{"type":"a","id":"b"},"data":5}}}}`, `{"data":{"type":"things","id":"1","relationships":{"r":{"data":5,"data":{"type":"a","id":"b"}}}}}`,
+	// linkage documents
+	`{"data":{"type":"others","id":"3"},"data":null}`, `{"data":null,"data":{"type":"others","id":"3"}}`, `{"data":[],"data":{"type":"others","id":"3"}}`,
+	`{"data":{"type":"others","id":"3","type":"things"}}`, `{"data":{"type":"others","id":3}}`, `{"data":{"type":"others","id":"3","meta":{"x":[1e5,-2]}}}`,
+	// add / remove documents: the slice is reused
+	`{"data":[{"type":"a","id":"b"},{"type":"c","id":"d"}],"data":[{"type":"e"}]}`, `{"data":[{"type":"a","id":"b"}],"data":null}`, `{"data":[{"type":"a","id":"b"}],"data":[]}`,
+	`{"data":[{"type":"a","id":"b"}],"data":null,"data":[{"type":"e"}]}`, `{"data":[{"type":"a","id":"b"}],"data":[],"data":[{"id":"f"}]}`,
+	`{"data":[{"type":"a","id":"b","type":"z","id":null}]}`, `{"data":[null,{"type":"a"}]}`, `{"data":[{"type":"a","id":"b"},{"type":"c","id":"d"}],"data":[null,null]}`,
+	`{"data":[{"type":"a","id":"b"},{"type":"c","id":"d"}],"data":[{"type":"e"},{"id":"f"},{"type":"g"}]}`,
+	`{"data":[{"type":"a","id":"b"},{"type":"c","id":"d"},{"type":"e","id":"f"}],"data":[{"type":"1"}],"data":[{"id":"2"},{"id":"3"},{"id":"4"},{"id":"5"},{"id":"6"}]}`,
+	`{"data":[{"type":"a","id":"b"}],"DATA":[{"ID":"c"},{}]}`, `{"data":[{"type":"a","id":"b"}],"data":[{"type":5}]}`, `{"data":[{"type":"a","id":"b"}],"data":{"type":"a"}}`,
+	// numbers: as ids, in skipped members, inside raw attribute values; out of float64 range
+	`{"data":{"type":"things","id":1}}`, `{"data":{"type":"things","id":"1","x":0}}`, `{"data":{"type":"things","id":"1","x":-0}}`, `{"data":{"type":"things","id":"1","x":1e999}}`,
+	`{"data":{"type":"things","id":"1","x":-1e999}}`, `{"data":{"type":"things","id":"1","x":1E+400}}`, `{"data":{"type":"things","id":"1","x":1e-999}}`,
+	`{"data":{"type":"things","id":"1","x":123456789012345678901234567890123456789012345678901234567890}}`,
+	`{"data":{"type":"things","id":"1","x":` + strings.Repeat("9", 400) + `}}`, `{"data":{"type":"things","id":"1","x":-` + strings.Repeat("9", 400) + `}}`,
+	`{"data":{"type":"things","id":"1","x":` + strings.Repeat("9", 400) + `.5}}`, `{"data":{"type":"things","id":"1","x":0.` + strings.Repeat("0", 400) + `1}}`,
+	`{"data":{"type":"things","id":"1","attributes":{"a":1e999}}}`, `{"data":{"type":"things","id":"1","attributes":{"a":[1.5,{"b":-2.5e-3}]}}}`, `{"data":{"type":"things","id":"1","attributes":{"a":1.0e+2,"b":2E5}}}`,
+	`{"data":{"type":"things","id":"1","x":01}}`, `{"data":{"type":"things","id":"1","x":1.}}`, `{"data":{"type":"things","id":"1","x":.5}}`, `{"data":{"type":"things","id":"1","x":-}}`,
+	`{"data":{"type":"things","id":"1","x":1e}}`, `{"data":{"type":"things","id":"1","x":+1}}`, `{"data":{"type":"things","id":"1","x":0x10}}`, `{"data":{"type":"things","id":"1","x":1e5e5}}`,
+	// strings: escapes in names and values, surrogates, control characters, bytes that are no UTF-8
+	`{"d\u0061ta":{"type":"things","id":"1"}}`, `{"data":{"t\u0079pe":"things","id":"\u0031"}}`, `{"data":{"type":"th\u0069ngs","id":"1"}}`, `{"data":{"type":"things","id":"1\n"}}`,
+	`{"data":{"type":"things","id":"\ud800"}}`, `{"data":{"type":"things","id":"1","x":"\ud800"}}`, `{"data":{"type":"things","id":"1","x":"\ud83d\ude00"}}`, `{"data":{"type":"things","id":"1","x":"\ude00\ud83d"}}`,
+	`{"data":{"type":"things","id":"1","x":"\ud800\u0041"}}`, `{"data":{"type":"things","id":"1","x":"\ud800\uZZZZ"}}`, `{"data":{"type":"things","id":"1","x":"\uD83D"}}`,
+	`{"data":{"type":"things","id":"1","x":"\q"}}`, `{"data":{"type":"things","id":"1","x":"\u12"}}`, `{"data":{"type":"things","id":"1","x":"a\/b\b\f\r\t\\\""}}`,
+	"{\"data\":{\"type\":\"things\",\"id\":\"1\",\"x\":\"a\nb\"}}", "{\"data\":{\"type\":\"things\",\"id\":\"1\",\"x\":\"a\tb\"}}", "{\"data\":{\"type\":\"things\",\"id\":\"1\",\"x\":\"\x7f\"}}",
+	"{\"data\":{\"type\":\"things\",\"id\":\"1\",\"x\":\"\xff\"}}", "{\"data\":{\"type\":\"things\",\"id\":\"1\xff\"}}", "{\"data\":{\"type\":\"things\",\"id\":\"1\",\"\xc3\":1}}",
+	"{\"data\":{\"type\":\"things\",\"id\":\"1\",\"x\":\"\xe2\x82\\\"}}", "{\"data\":{\"type\":\"things\",\"id\":\"\xc3\xa9\"}}",
+	// literals, structure, white space, trailing bytes, NUL, byte order mark
+	`{"data":{"type":"things","id":"1","x":tru}}`, `{"data":{"type":"things","id":"1","x":nul}}`, `{"data":{"type":"things","id":"1","x":True}}`, `{"data":{"type":"things","id":"1","x":[1,]}}`,
+	`{"data":{"type":"things","id":"1",}}`, `{"data":{"type":"things","id":"1"},}`, `{"data":{"type":"things" "id":"1"}}`, `{"data":{"type":"things","id":"1"}`, `{"data":{"type":"things","id":"1"}}}`,
+	`{'data':{"type":"things","id":"1"}}`, `{data:{"type":"things","id":"1"}}`, `[{"data":{"type":"things","id":"1"}}]`, `"data"`, `null`, `true`, `0`, ` null `, `nullx`, ``, ` `,
+	"\xef\xbb\xbf" + `{"data":{"type":"things","id":"1"}}`, `{"data":{"type":"things","id":"1"}}` + "\x00", `{"data":{"type":"things","id":"1"}}` + "\x00}", "\x00" + `{"data":{"type":"things","id":"1"}}`,
+	`{"data":{"type":"things","id":"1"}}` + "\x0c", `{"data":{"type":"things","id":"1"}}` + "\xc2\xa0", "\t\r\n " + `{ "data" : { "type" : "things" , "id" : "1" } }` + " \n",
+	`{"data":{"type":"things","id":"1","x":{"a":{"b":{"c":[[[{"d":null}]]]}}}}}`, `{"":{"":""},"data":{"type":"things","id":"1","":""}}`,
+}
+
+// a document glued from fragments that matter to the decoders
+func randRawDocument(r *rng.R) string {
+	ids := []string{`{"type":"others","id":"1"}`, `{"type":"things","id":"1"}`, `{"id":"2"}`, `{"type":"e"}`, `{}`, `null`, `{"type":"a","id":"b","type":null}`, `{"TYPE":"others","Id":"3"}`, `5`, `{"id":7}`}
+	value := func() string {
+		switch r.Intn(7) {
+		case 0:
+			return "null"
+		case 1:
+			return rng.Pick(r, ids)
+		case 2:
+			var xs []string
+			for n := r.Intn(4); n > 0; n-- {
+				xs = append(xs, rng.Pick(r, ids))
+			}
+			return "[" + strings.Join(xs, ",") + "]"
+		case 3:
+			return rng.Pick(r, []string{"0", "-1", "1.5", "1e5", "1e999", "-1E-999", "12345678901234567890", "1.0e+2", "true", `"x"`, `"\ud800"`, `"\u0031"`, "[]", "{}", `{"k":[1,2,{"z":null}]}`})
+		}
+		return rng.Pick(r, ids)
+	}
+	key := func(k string) string {
+		if r.Chance(1, 6) {
+			return randCase(k, r)
+		}
+		return k
+	}
+	if r.Chance(1, 2) {
+		// a linkage / members document
+		var ms []string
+		for n := r.Range(1, 3); n > 0; n-- {
+			ms = append(ms, `"`+key("data")+`":`+value())
+		}
+		if r.Chance(1, 4) {
+			ms = append(ms, `"meta":`+value())
+		}
+		return "{" + strings.Join(ms, rng.Pick(r, []string{",", " , ", ",\n"})) + "}" + rng.Pick(r, []string{"", "", "", " ", "\x00", "}"})
+	}
+	var docs []string
+	for n := r.Range(1, 2); n > 0; n-- {
+		var ms []string
+		for k := r.Range(1, 5); k > 0; k-- {
+			switch r.Intn(6) {
+			case 0:
+				ms = append(ms, `"`+key("type")+`":`+rng.Pick(r, []string{`"things"`, `"things"`, `"others"`, "null", "5", `"th\u0069ngs"`}))
+			case 1:
+				ms = append(ms, `"`+key("id")+`":`+rng.Pick(r, []string{`"1"`, `"1"`, `"2"`, "null", "1", `"\u0031"`}))
+			case 2:
+				ms = append(ms, `"`+key("attributes")+`":`+rng.Pick(r, []string{`{"a":1}`, `{"b":[1.5e3]}`, `{"a":1,"a":2,"A":3}`, "null", "[]", `{"a":1e999}`, "{}"}))
+			case 3:
+				ms = append(ms, `"`+key("relationships")+`":`+rng.Pick(r, []string{`{"r":{"data":` + value() + `}}`, `{"r":{"data":` + value() + `},"r":{"data":` + value() + `}}`, `{"r":{"data":` + value() + `,"data":` + value() + `},"q":{}}`, "null", "5", "{}"}))
+			case 4:
+				ms = append(ms, `"x":`+value())
+			default:
+				ms = append(ms, `"type":"things","id":"1"`)
+			}
+		}
+		docs = append(docs, `"`+key("data")+`":`+rng.Pick(r, []string{"{" + strings.Join(ms, ",") + "}", "{" + strings.Join(ms, ",") + "}", "{" + strings.Join(ms, ",") + "}", "null"}))
+	}
+	return "{" + strings.Join(docs, ",") + "}" + rng.Pick(r, []string{"", "", "", "\n", "x"})
+}
+
 func thingDoc(id string) body {
 	return treeBody(jobj(f("data", jobj(f("type", jstr("things")), f("id", jstr(id))))))
 }
@@ -1234,7 +1482,7 @@ var okAccept = []string{mediaType}
 var paths = []string{
 	"", "/", "things", "//things/1",
 	"/things", "/others", "/unknown", "/things/",
-	"/things/1", "/things/v1", "/things/v2", "/things/v3", "/things/v5", "/things/v9", "/things/nil", "/things/e404", "/things/e0", "/things/ebad", "/things/e1000", "/things/e+451", "/things/e100", "/things/e999",
+	"/things/1", "/things/v1", "/things/v2", "/things/v3", "/things/v5", "/things/v9", "/things/nil", "/things/e404", "/things/e0", "/things/ebad", "/things/e1000", "/things/e+451", "/things/e100", "/things/e999", "/things/emeta", "/things/emeta/one", "/things/emeta/relationships/many",
 	"/others/1", "/others/v2", "/unknown/1", "/things/relationships",
 	"/things/1/one", "/things/1/many", "/things/1/nope", "/things/1/relationships", "/things/1/", "/things/nil/one", "/things/e404/many", "/things/ebad/one",
 	"/things/v4/one", "/things/v4/many", "/things/v5/one", "/things/v5/many", "/things/v6/one", "/things/v6/many", "/things/v7/one", "/things/v7/many",
@@ -1368,7 +1616,7 @@ func defaultRequest() request {
 var typeNames = []string{"things", "others", "x-y_z", "T9"}
 var idNames = []string{"1", "2", "v1", "v2", "v3", "nil", "e404", "e0", "ebad", "", "relationships", "a b", "é"}
 var relNames = []string{"one", "many", "r3", "relationships", "nope"}
-var statuses = []string{"", "400", "403", "404", "409", "422", "500", "503", "200", "100", "999", "1000", "99", "0", "abc", "+404", "-404", "4 4", "0404", "40x"}
+var statuses = []string{"403!", "!", "abc!", "", "400", "403", "404", "409", "422", "500", "503", "200", "100", "999", "1000", "99", "0", "abc", "+404", "-404", "4 4", "0404", "40x"}
 
 // healthy: the generator currently prefers outcomes that let a request succeed (set per case)
 var healthy bool
@@ -1900,6 +2148,56 @@ func main() {
 			} {
 				b := p.b
 				emit(richSchema(15, 15, false), request{Method: p.m, Path: p.path, Accept: okAccept, Body: body{Tree: &b, Tail: tail}})
+			}
+		}
+		// 3d. request documents as raw text: repeated member names (which occurrence wins, merging of
+		// structs / maps / slices), wrong member types, numbers as ids, escapes in names and values,
+		// surrogates, bytes that are no UTF-8, numbers of every shape, NUL / BOM / truncation
+		for _, doc := range rawDocuments {
+			for _, p := range []struct{ m, path string }{
+				{"PATCH", "/things/1"}, {"POST", "/things"}, {"PATCH", "/things/1/one"},
+				{"PATCH", "/things/1/relationships/one"}, {"POST", "/things/1/relationships/many"}, {"DELETE", "/things/1/relationships/many"},
+			} {
+				emit(richSchema(15, 15, false), request{Method: p.m, Path: p.path, Accept: okAccept, Body: rawBody(doc)})
+			}
+		}
+		nraw := 2500
+		if h.Thorough() {
+			nraw = 100000
+		}
+		for i := 0; i < nraw; i++ {
+			h.Case(func(r *rng.R) sexp.Node {
+				p := rng.Pick(r, []struct{ m, path string }{
+					{"PATCH", "/things/1"}, {"PATCH", "/things/1"}, {"POST", "/things"}, {"PATCH", "/things/1/one"},
+					{"PATCH", "/things/1/relationships/one"}, {"POST", "/things/1/relationships/many"}, {"DELETE", "/things/1/relationships/many"},
+				})
+				return runCase(r, richSchema(15, 15, false), request{Method: p.m, Path: p.path, Accept: okAccept, Body: rawBody(randRawDocument(r)),
+					ContentType: rng.Pick(r, contentTypes)})
+			})
+		}
+		// 3e. request-targets as they arrive on the wire: percent-encoded path segments (an encoded slash
+		// inside an id, encoded type names, NUL, blanks, '?'), with and without a query
+		for _, target := range []string{
+			"/things/a%2Fb", "/things/a%2Fb/one", "/things/1%2Fone", "/things/1%2Frelationships%2Fone", "/th%69ngs/1", "/things%2F1",
+			"/things/%00", "/things/a%20b", "/things/1%3Fx", "/things/%C3%A9", "/things/%25", "/things/%5Ba%5D", "/things/1/relationships/%6Fne",
+			"/things/1/relation%73hips/one", "/things/v1?page%5Bsize%5D=1", "/things/v1?pa%67e[size]=1", "/things/v1?sort=a", "/things/1/%6Dany?Foo%5Bbar%5D=1",
+			"/things//1", "/things/1//", "//things/1", "/things/./1", "/things/../things/1", "/things/1;v=2", "/things/1#frag", "/%74hings",
+		} {
+			for _, m := range []string{"GET", "PATCH", "DELETE"} {
+				emit(richSchema(15, 15, false), request{Method: m, Target: target, Accept: okAccept, Body: thingDoc("1")})
+			}
+		}
+		// 3f. Content-Type of requests with a body: the handler does not look at it (JSON:API asks for 415
+		// when the media type carries parameters; the property's status list does not name 415)
+		for _, ct := range contentTypes {
+			for _, p := range []struct {
+				m, path string
+				b       body
+			}{
+				{"PATCH", "/things/1", thingDoc("1")}, {"POST", "/things", treeBody(jobj(f("data", jobj(f("type", jstr("things"))))))},
+				{"POST", "/things/1/relationships/many", membersDoc(jid("others", "1"))}, {"GET", "/things/1", rawBody("")},
+			} {
+				emit(richSchema(15, 15, false), request{Method: p.m, Path: p.path, Accept: okAccept, Body: p.b, ContentType: ct})
 			}
 		}
 		// 4. random schemas and requests
